@@ -189,6 +189,16 @@ theorem C16_delete_immediate (s : State) (h : Hnd) (o : Inst) (ho : s.objs h = s
   intro c i hne
   simp [opDestroy, ho, setObj, logStmt, setRowDb_other _ _ _ _ _ _ hne]
 
+/-- inserts and deletes remain immediate (both halves, as one statement) -/
+theorem C16_insert_delete_immediate (cfg : Cfg) (s : State) (h : Hnd) :
+    (∀ cls id kvs p, s.objs h = none → colsOk (cfg.ncols cls) kvs = true → validate kvs = some p → s.db cls id = none →
+      (opCreate cfg s h cls id kvs).1.db cls id = some (applyUpd (fun _ => none) p) ∧
+      (opCreate cfg s h cls id kvs).1.updates = s.updates) ∧
+    (∀ o, s.objs h = some o → (opDestroy s h).1.db o.cls o.id = none ∧ (opDestroy s h).1.updates = s.updates) :=
+  ⟨fun cls id kvs p h1 h2 h3 h4 =>
+      let r := C16_insert_immediate cfg s h cls id kvs p h1 h2 h3 h4; ⟨r.2.1, r.2.2.1⟩,
+   fun o ho => let r := C16_delete_immediate s h o ho; ⟨r.2.1, r.2.2.1⟩⟩
+
 /-- **Pickling flushes.**  `__getstate__` of a lazy object is exactly `syncUpdate()` (so
     `C16_sync_writes_pending` describes the one UPDATE it sends), and after it succeeded nothing is pending. -/
 theorem C16_pickle_flushes (cfg : Cfg) (s : State) (h : Hnd) (o : Inst) (fail : Bool) (ho : s.objs h = some o)
